@@ -770,6 +770,17 @@ def nav_check(p, rng=None, stat=None, max_slices=14):
                 and all(x._impl._node is s for x, s in zip(sub, stmts[a:b]))
                 and all(sub[k] == items[a + k] for k in range(b - a)), wh, tag)
             same_parent(sub, owner, wh, tag)
+            # indexing a block outside of itself never hands out a neighbouring statement
+            for k in (b - a, -(b - a) - 1):
+                try:
+                    got = sub[k]
+                    okk = is_invalid(got)
+                    what = type(got).__name__
+                except (IndexError, _exo().IC.InvalidCursorError):
+                    okk, what = True, "raised"
+                except Exception as e:  # noqa
+                    okk, what = False, type(e).__name__
+                law("block_index_edge", okk, wh, f"{tag}[{k}] gave {what} instead of raising IndexError / an invalid cursor")
             okx, fb = guard("block_before_after", wh, lambda: (sub.before(), sub.after()))
             if okx:
                 law("block_before_after", fb[0] == items[a].before()
